@@ -6,6 +6,7 @@ From Coq Require Import List String ZArith NArith Bool.
 Import ListNotations.
 From DV Require Import Model.Decision Gen.DecisionSrc Proofs.RestoreIdentProofs.
 From DV Require Import Model.Decision Gen.GoastImportsSrc Proofs.GoastStepProofs.
+From DV Require Import Proofs.StripVendorProofs Model.StripProg Gen.StripVendorSrc Proofs.StripVendorSrcProofs.
 From DV Require Import Model.Tree Model.Resolvers Model.Imports Proofs.ResolverProofs Proofs.ImportsProofs Proofs.ImportsExact
   Model.Decision Model.DecisionInterp Gen.DecisionSrc Proofs.DecisionProofs.
 Local Open Scope string_scope.
@@ -135,6 +136,27 @@ Proof. split; [exact restoreident_source_is_model | exact restore_ident_mode_is_
 Theorem C10_restoreIdent_source_is_within_the_vocabulary : restoreident_vocabulary_ok = true.
 Proof. vm_compute. reflexivity. Qed.
 
+(* What travels does not depend on where the code came from: with ResolveLocalPath the path stored on
+   an identifier is the same whatever package the file was decorated in (so a reference to the source
+   package's own objects survives the move), it never contains a vendor directory, and stripVendor as
+   decorator.go writes it on this run computes the model for every path. Without ResolveLocalPath the
+   stored path does depend on the source package (witness): the documented requirement is necessary. *)
+Theorem C10_stored_path_is_independent_of_the_source_package : forall force l1 l2 pf raw,
+  resolve_path force l1 true pf raw = resolve_path force l2 true pf raw.
+Proof. exact resolve_path_independent_of_source_package. Qed.
+
+Theorem C10_travelling_paths_are_vendor_free : forall force local rl pf raw,
+  strip_vendor (resolve_path force local rl pf raw) = resolve_path force local rl pf raw.
+Proof. exact resolve_path_is_vendor_free. Qed.
+
+Theorem C10_stripVendor_source_computes_the_model : forall path,
+  run_sv strip_vendor_src path = Some (strip_vendor path).
+Proof. exact strip_vendor_source_is_model. Qed.
+
+Example C10_without_ResolveLocalPath_the_source_package_matters :
+  exists l1 l2 pf raw, resolve_path false l1 false pf raw <> resolve_path false l2 false pf raw.
+Proof. exact resolve_path_depends_on_source_package_without_local_paths. Qed.
+
 Print Assumptions C10_reference_travels_as_import_path.
 Print Assumptions C10_resolver_sources_compute_the_models.
 Print Assumptions C10_moved_reference_is_bound_in_the_target.
@@ -146,3 +168,6 @@ Print Assumptions C10_goast_scan_iterates_the_step.
 Print Assumptions C10_goast_imports_source_is_within_the_vocabulary.
 Print Assumptions C10_restoreIdent_source_computes_the_model.
 Print Assumptions C10_restoreIdent_source_is_within_the_vocabulary.
+Print Assumptions C10_stored_path_is_independent_of_the_source_package.
+Print Assumptions C10_travelling_paths_are_vendor_free.
+Print Assumptions C10_stripVendor_source_computes_the_model.
